@@ -12,7 +12,7 @@ from .. import core, obs
 
 STR_CH = ["a", '"', "\\", "$", "{", "'", "#", "\n", "\r", "\t", "\x7f", "é", " "]  # NUL is left out: Nix strings cannot hold it
 INTS = [0, 1, -1, 2**63, -7]
-FLOATS = [0.0, -0.0, 1.5, -2.5, 1e-7, 1e16, 1e22, 5e-324, 123456.789, -1e-7, -1e22]  # sign x {plain, exponent} spellings
+FLOATS = [0.0, -0.0, 1.5, -2.5, 1e-7, 1e16, 1e22, 5e-324, 123456.789, -1e-7, -1e22, 1e-10, 2.5e20, 1e100]  # sign x {plain, exponent} spellings; exponents ending in 0
 CONSTS = [True, False, None]
 REP = ["a", 'q"\\', "$", "'' ", "\n\t", "", 1, -1, 2**63, True, None, 1.5, -2.5, 1e-7, -1e-7]
 KEYS = ["a", "b'", "_c"]
